@@ -438,13 +438,11 @@ def _collapsed(ref_iter, cur_iter):
 
 
 _FAMILIES = [
-    {'split', 'rsplit', 'partition', 'rpartition', 'splitlines'},
     {'strip', 'lstrip', 'rstrip'},
     {'startswith', 'endswith'},
     {'copy', 'deepcopy'},
     {'sorted', 'list', 'tuple', 'set', 'frozenset', 'reversed'},
     {'min', 'max'}, {'any', 'all'},
-    {'match', 'search', 'fullmatch'},
     {'get', 'setdefault', 'pop'},
     {'int', 'float', 'round', 'bool'}, {'str', 'repr'},
     {'append', 'extend', 'insert'}, {'add', 'update'},
